@@ -32,16 +32,16 @@ def proj(c):
     return [[int(round(pt.Z / U)) for pt in c], int(c.startInd), int(c.endInd)]
 
 
-def insert_val(p, i):
+def insert_val(p, i, gap):
     d = 1 if p[1] > p[0] else -1
     n = len(p)
     if i < 0:
         i = max(0, i + n)
     i = min(i, n)
     if i <= 0:
-        return p[0] - 4 * d
+        return p[0] - (gap // 4) * d
     if i >= n:
-        return p[-1] + 4 * d
+        return p[-1] + (gap // 4) * d
     return (p[i - 1] + p[i]) // 2
 
 
@@ -51,17 +51,17 @@ def main():
         nodes = json.load(fh)
     out = []
     for nd in nodes:
-        p, s, e = nd["p"], nd["s"], nd["e"]
+        p, s, e, gap = nd["p"], nd["s"], nd["e"], nd["gap"]
         succ = {}
         n = len(p)
         for i in range(-n - 1, n + 2):
             c = mk(p, s, e)
             try:
-                c.insert(i, Point2D(R0, insert_val(p, i) * U))
+                c.insert(i, Point2D(R0, insert_val(p, i, gap) * U))
                 succ["insert:%d" % i] = proj(c)
             except Exception as ex:  # noqa
                 succ["insert:%d" % i] = ["raised", type(ex).__name__, 0]
-        for name, kw in (("extlo", dict(extend_lower=1, ds_lower=16 * U)), ("extup", dict(extend_upper=1, ds_upper=16 * U))):
+        for name, kw in (("extlo", dict(extend_lower=1, ds_lower=gap * U)), ("extup", dict(extend_upper=1, ds_upper=gap * U))):
             c = mk(p, s, e)
             try:
                 c.temporaryExtend(psi=psi, **kw)
